@@ -352,6 +352,7 @@ func (g *gen) stmt() {
 		{"mapmut", 3, true, g.sMapMut},
 		{"append", 3, true, g.sAppend},
 		{"pointer", 3, true, g.sPointer},
+		{"ptrrecv", 4, true, g.sNamedPtrRecv},
 		{"early", 1, g.depth > 1 && g.inDefer == 0 && g.inLoop > 0, g.sEarlyReturn},
 		{"goexit", 2, g.o.Goexit && g.inDefer == 0, g.sGoexit},
 		{"where", 20, g.o.Where, g.sWhere},
@@ -1302,6 +1303,43 @@ func (g *gen) sPointer() {
 	}
 }
 
+// sNamedPtrRecv: pointer-receiver methods on local variables of named non-struct types (implicit address-of), their
+// method values, and the address of a parenthesised variable; the variable is read again after later suspensions.
+func (g *gen) sNamedPtrRecv() {
+	g.tmp++
+	switch g.r.Intn(6) {
+	case 0:
+		g.f("ptrrecv:call-on-named-int")
+		g.line("ni.Inc(%s)", g.mod(g.intExpr(1)))
+	case 1:
+		g.f("ptrrecv:suspending-callee")
+		g.line("ni.IncY(%d)", g.nextAtom())
+	case 2:
+		g.f("ptrrecv:call-on-named-slice")
+		g.line("stk.Push(%s)", g.mod(g.intExpr(1)))
+	case 3:
+		g.f("ptrrecv:method-value")
+		g.line("mf%d := ni.IncY", g.tmp)
+		g.stmtStart()
+		g.line("mf%d(%d)", g.tmp, g.nextAtom())
+	case 4:
+		g.f("ptrrecv:address-of-parenthesised-variable")
+		g.line("pp%d := &(c)", g.tmp)
+		g.line("b += %s", g.mod(g.intExpr(1)))
+		g.stmtStart()
+		g.line("*pp%d += 1", g.tmp)
+	default:
+		g.f("ptrrecv:loop-post-statement")
+		// (bounded by a second counter: on a broken tree the post statement may never advance the first)
+		g.line("for w%d, q%d := NI(0), 0; w%d < 3 && q%d < 6; w%d.IncY(%d) {", g.tmp, g.tmp, g.tmp, g.tmp, g.tmp, g.nextAtom())
+		g.line("\tq%d++", g.tmp)
+		g.line("\ta++")
+		g.line("}")
+	}
+	g.stmtStart()
+	g.line("a += int(ni)%%13 + len(stk)")
+}
+
 func (g *gen) sEarlyReturn() {
 	g.f("return:inside-loop")
 	g.line("if %s {", g.boolExpr(1))
@@ -1354,6 +1392,9 @@ func (g *gen) function(idx int) {
 	g.line("ch := make(chan int, 2)")
 	g.line("ch2 := make(chan int, 2)")
 	g.line("var nilch chan int")
+	g.line("ni := NI(1)")
+	g.line("stk := Stk{1}")
+	g.line("_, _ = ni, stk")
 	g.line("_, _, _, _, _, _, _, _, _, _ = a, b, c, s, arr, sl, m, st, ps, pi")
 	g.line("_, _, _, _, _, _, _, _, _, _, _ = t, tv, e, i, fv, mv, bx, bv, ch, ch2, nilch")
 	g.line("_ = runtime.NumGoroutine")
@@ -1381,7 +1422,7 @@ func (g *gen) function(idx int) {
 		g.stmt()
 	}
 	g.stmtStart()
-	g.line("r += (a + b*3 + c*5 + len(s) + arr[0] + arr[2] + len(sl) + len(m) + st.a + t.N + e.N + bx.V) %% 9973")
+	g.line("r += (a + b*3 + c*5 + len(s) + arr[0] + arr[2] + len(sl) + len(m) + st.a + t.N + e.N + bx.V + int(ni)%%97 + len(stk)) %% 9973")
 	g.stmtStart()
 	if g.unnamed && g.r.Bool() {
 		// a bare identifier as unnamed result: deferred calls that modify the variable afterwards must not
@@ -1413,6 +1454,21 @@ type S struct {
 }
 
 var ks = [3]string{"a", "b", "c"}
+
+// NI and Stk are named non-struct types with pointer-receiver methods: calling one on a local variable takes the
+// variable's address implicitly.
+type NI int
+
+func (n *NI) Inc(k int)  { *n += NI(k % 5) }
+func (n *NI) IncY(k int) { *n += NI(y.Y(k)%5) + 1 }
+
+type Stk []int
+
+func (s *Stk) Push(k int) {
+	if len(*s) < 6 {
+		*s = append(*s, k%7)
+	}
+}
 
 //go:linkname lk seqprog/y.hidden
 func lk(k int) int
